@@ -309,6 +309,18 @@ example (h : Host) : ¬ SpecCompat h xOC := by
   have := (hsc _ _ _ _ s1 s2 _ f1 _ f2 rfl).2 (by decide)
   exact absurd this.1 (by decide)
 
+/-- `NoNestedMounts` holds of the configuration with two separate collection mounts, and the
+conclusion of `C17_mounted_view_partial` is not empty there -/
+theorem xMC_noNested : NoNestedMounts xMC := by
+  intro e he e' he' hk
+  simp only [xMC, List.mem_cons, List.not_mem_nil, or_false] at he he'
+  rcases he with rfl | rfl | rfl <;> rcases he' with rfl | rfl | rfl <;> first | decide | (exact absurd hk (by decide))
+
+example : ∀ f ∈ (Plan.frags { dirs := [], files := [], frags := [(["m", "f"], some [1]), (["lc", "z"], some [3])] }),
+    ∃ D y, Site xMH xMC D y ∧ f ∈ fragOf xMC D y ∧ Unshadowed xMC D y f :=
+  C17_mounted_view_partial xMH xMC ⟨by decide, by decide, by decide⟩ xMC_wf (by decide) (by decide) xMH_direct
+    xMC_noNested 60 _ xMH_scan
+
 /-! ### failing trees -/
 
 /-- FIFO in a subdirectory -/
